@@ -11,6 +11,11 @@
 (*                       result = await task;          active = 0          *)
 (*                       await gather(.._emit(result, md)); release(md)    *)
 (*                                                                         *)
+(*                       on an exception of the task: log, drop the        *)
+(*                       element, never release it (ReleaseFailed = TRUE   *)
+(*                       models the pinned tree, which released it and so  *)
+(*                       reported a lost element as done: finding F23)     *)
+(*                                                                         *)
 (* The functions finish in any order (FuncFinish); results are forwarded   *)
 (* in arrival order because the *tasks* are queued in arrival order.       *)
 (* Legacy = TRUE models the pinned tree before the fixes: no insert lock   *)
@@ -24,14 +29,18 @@ CONSTANTS NE, P, SyncCons, MaxOut, Legacy,
           EarlySlot   \* TRUE (the tree): queue.get() frees the slot although the task still runs, so parallelism + 1
                       \* functions can be evaluated at once (known finding F08, pinned by test_map_async_tornado);
                       \* FALSE: the awaited task counts against the limit
+CONSTANTS Faults,         \* TRUE: a function evaluation may raise
+          ReleaseFailed   \* TRUE: the pinned tree before the fix of F23
 
-VARIABLES arrived, ins, q, running, finished, wpc, cur, active, delivered, consBusy, emitDone, inserted, rc, fired
-vars == <<arrived, ins, q, running, finished, wpc, cur, active, delivered, consBusy, emitDone, inserted, rc, fired>>
+VARIABLES arrived, ins, q, running, finished, wpc, cur, active, delivered, consBusy, emitDone, inserted, rc, fired,
+          failedF,   \* elements whose function raised
+          dropped    \* ... and which the worker has logged and dropped
+vars == <<arrived, ins, q, running, finished, wpc, cur, active, delivered, consBusy, emitDone, inserted, rc, fired, failedF, dropped>>
 Elems == 1 .. NE
 
 Init == /\ arrived = 0 /\ ins = <<>> /\ q = <<>> /\ running = {} /\ finished = {} /\ wpc = "idle" /\ cur = 0 /\ active = 0
         /\ delivered = <<>> /\ consBusy = FALSE /\ emitDone = [e \in Elems |-> FALSE] /\ inserted = [e \in Elems |-> FALSE]
-        /\ rc = [e \in Elems |-> 0] /\ fired = <<>>
+        /\ rc = [e \in Elems |-> 0] /\ fired = <<>> /\ failedF = {} /\ dropped = {}
 
 Outstanding == Cardinality({e \in 1 .. arrived : ~emitDone[e]})
 Range(s) == {s[i] : i \in 1 .. Len(s)}
@@ -42,7 +51,7 @@ Arrive(e) ==
     /\ arrived' = e /\ ins' = Append(ins, e)
     /\ IF Legacy THEN /\ rc' = rc /\ fired' = Append(fired, e)        \* nothing retained yet: the upstream's release brings it to zero
        ELSE /\ rc' = [rc EXCEPT ![e] = @ + 1] /\ fired' = fired
-    /\ UNCHANGED <<q, running, finished, wpc, cur, active, delivered, consBusy, emitDone, inserted>>
+    /\ UNCHANGED <<q, running, finished, wpc, cur, active, delivered, consBusy, emitDone, inserted, failedF, dropped>>
 
 \* a waiting job finds a free slot, starts the function and queues its task
 Insert(e) ==
@@ -52,51 +61,70 @@ Insert(e) ==
     /\ ins' = Without(ins, e) /\ q' = Append(q, e) /\ running' = running \cup {e}
     /\ inserted' = [inserted EXCEPT ![e] = TRUE]
     /\ rc' = IF Legacy THEN [rc EXCEPT ![e] = @ + 1] ELSE rc
-    /\ UNCHANGED <<arrived, finished, wpc, cur, active, delivered, consBusy, emitDone, fired>>
+    /\ UNCHANGED <<arrived, finished, wpc, cur, active, delivered, consBusy, emitDone, fired, failedF, dropped>>
 
 EmitDone(e) == /\ inserted[e] /\ ~emitDone[e] /\ emitDone' = [emitDone EXCEPT ![e] = TRUE]
-               /\ UNCHANGED <<arrived, ins, q, running, finished, wpc, cur, active, delivered, consBusy, inserted, rc, fired>>
+               /\ UNCHANGED <<arrived, ins, q, running, finished, wpc, cur, active, delivered, consBusy, inserted, rc, fired, failedF, dropped>>
 
 FuncFinish(e) == /\ e \in running /\ running' = running \ {e} /\ finished' = finished \cup {e}
-                 /\ UNCHANGED <<arrived, ins, q, wpc, cur, active, delivered, consBusy, emitDone, inserted, rc, fired>>
+                 /\ UNCHANGED <<arrived, ins, q, wpc, cur, active, delivered, consBusy, emitDone, inserted, rc, fired, failedF, dropped>>
+
+\* the function of element e raises
+FuncFail(e) == /\ Faults /\ e \in running /\ running' = running \ {e} /\ failedF' = failedF \cup {e}
+               /\ UNCHANGED <<arrived, ins, q, finished, wpc, cur, active, delivered, consBusy, emitDone, inserted, rc, fired, dropped>>
+
+\* the worker meets the exception: logs it and goes on with the next task; the element is not passed on and
+\* (unless ReleaseFailed) stays retained for ever, so its completion callback never fires
+WorkDrop == /\ wpc = "awaiting" /\ cur \in failedF
+            /\ active' = 0 /\ wpc' = "idle" /\ cur' = 0 /\ dropped' = dropped \cup {cur}
+            /\ IF ReleaseFailed
+               THEN /\ rc' = [rc EXCEPT ![cur] = @ - 1]
+                    /\ fired' = IF rc[cur] - 1 <= 0 THEN Append(fired, cur) ELSE fired
+               ELSE UNCHANGED <<rc, fired>>
+            /\ UNCHANGED <<arrived, ins, q, running, finished, delivered, consBusy, emitDone, inserted, failedF>>
 
 WorkGet == /\ wpc = "idle" /\ q # <<>>
            /\ cur' = Head(q) /\ q' = Tail(q) /\ active' = 1 /\ wpc' = "awaiting"
-           /\ UNCHANGED <<arrived, ins, running, finished, delivered, consBusy, emitDone, inserted, rc, fired>>
+           /\ UNCHANGED <<arrived, ins, running, finished, delivered, consBusy, emitDone, inserted, rc, fired, failedF, dropped>>
 
 WorkEmit == /\ wpc = "awaiting" /\ cur \in finished
             /\ active' = 0 /\ delivered' = Append(delivered, cur) /\ consBusy' = ~SyncCons /\ wpc' = "emitting"
-            /\ UNCHANGED <<arrived, ins, q, running, finished, cur, emitDone, inserted, rc, fired>>
+            /\ UNCHANGED <<arrived, ins, q, running, finished, cur, emitDone, inserted, rc, fired, failedF, dropped>>
 
 ConsumerDone == /\ consBusy /\ consBusy' = FALSE
-                /\ UNCHANGED <<arrived, ins, q, running, finished, wpc, cur, active, delivered, emitDone, inserted, rc, fired>>
+                /\ UNCHANGED <<arrived, ins, q, running, finished, wpc, cur, active, delivered, emitDone, inserted, rc, fired, failedF, dropped>>
 
 WorkRelease == /\ wpc = "emitting" /\ ~consBusy
                /\ rc' = [rc EXCEPT ![cur] = @ - 1]
                /\ fired' = IF rc[cur] - 1 <= 0 THEN Append(fired, cur) ELSE fired
                /\ wpc' = "idle" /\ cur' = 0
-               /\ UNCHANGED <<arrived, ins, q, running, finished, active, delivered, consBusy, emitDone, inserted>>
+               /\ UNCHANGED <<arrived, ins, q, running, finished, active, delivered, consBusy, emitDone, inserted, failedF, dropped>>
 
-Internal == (\E e \in Elems : Insert(e)) \/ WorkGet \/ WorkEmit \/ WorkRelease
-Next == (\E e \in Elems : Arrive(e) \/ EmitDone(e) \/ FuncFinish(e)) \/ Internal \/ ConsumerDone
+Internal == (\E e \in Elems : Insert(e)) \/ WorkGet \/ WorkEmit \/ WorkDrop \/ WorkRelease
+Next == (\E e \in Elems : Arrive(e) \/ EmitDone(e) \/ FuncFinish(e) \/ FuncFail(e)) \/ Internal \/ ConsumerDone
 Spec == Init /\ [][Next]_vars
-FairSpec == Spec /\ WF_vars(Internal) /\ WF_vars(ConsumerDone) /\ \A e \in Elems : WF_vars(FuncFinish(e)) /\ WF_vars(EmitDone(e)) /\ WF_vars(Arrive(e))
+FairSpec == Spec /\ WF_vars(Internal) /\ WF_vars(ConsumerDone) /\ \A e \in Elems : WF_vars(FuncFinish(e) \/ FuncFail(e)) /\ WF_vars(EmitDone(e)) /\ WF_vars(Arrive(e))
 
 ----------------------------------------------------------------------------
 Quiescent == ins = <<>> /\ q = <<>> /\ wpc = "idle" /\ running = {}
 \* C02: results in arrival order, each exactly once, whatever order the functions finish in
-InOrder == \A i \in 1 .. Len(delivered) : delivered[i] = i
-Lossless == Quiescent => Len(delivered) = arrived
+\* (an element whose function raised is dropped: the others keep their order)
+InOrder == /\ \A i, j \in 1 .. Len(delivered) : i < j => delivered[i] < delivered[j]
+           /\ \A i \in 1 .. Len(delivered) : \A e \in 1 .. (delivered[i] - 1) : e \in Range(delivered) \/ e \in failedF
+           /\ \A i \in 1 .. Len(delivered) : delivered[i] \notin failedF
+Lossless == Quiescent => Len(delivered) + Cardinality(dropped) = arrived
 \* C03: at most `parallelism` functions are being evaluated at any time
 Parallelism == Cardinality(running) <= P
 \* C03: accepted (emit completed) but not yet handed on is bounded by the parallelism
 Bound == Cardinality({e \in 1 .. arrived : inserted[e] /\ (e \in Range(q) \/ (cur = e /\ wpc = "awaiting"))}) <= P
 EmitsComplete == \A e \in Elems : (e <= arrived) ~> emitDone[e]
-AllDelivered == <>(Len(delivered) = NE)
+AllDelivered == <>(Len(delivered) + Cardinality(dropped) = NE)
 \* C04 / C05
 InFlight(e) == e \in Range(ins) \/ e \in Range(q) \/ (cur = e /\ wpc \in {"awaiting", "emitting"})
 CbSafe == \A i \in 1 .. Len(fired) : ~InFlight(fired[i])
+\* C04: never for an element whose processing raised
+FailedNeverSignalled == \A i \in 1 .. Len(fired) : fired[i] \notin failedF
 RcBalance == /\ \A e \in Elems : rc[e] >= 0
-             /\ \A e \in Elems : rc[e] = (IF InFlight(e) THEN 1 ELSE 0)
+             /\ \A e \in Elems : rc[e] = (IF InFlight(e) \/ (e \in dropped /\ ~ReleaseFailed) THEN 1 ELSE 0)
              /\ \A e \in Elems : Cardinality({i \in 1 .. Len(fired) : fired[i] = e}) <= 1
 =============================================================================
